@@ -14,7 +14,8 @@ Proved for ALL streams, ALL partitions into blocks, ALL edge/level/auto settings
                              — from the first block after a start (restored or default settings)
                              and (`…_after_reconfigure`) after a ConfigureTriggers request arriving
                              at any point of the stream;
-* `C02_edge_only_sound`      edge-only: every trigger sits on a sample satisfying the criterion;
+* `C02_sound`                any trigger combination: every trigger sits on a sample satisfying an enabled
+                             criterion (or auto is on); `C02_edge_only_sound` is the edge-only case;
 * `C02_edge_only_no_overlap` edge-only: successive triggers of an epoch are ≥ one record apart;
 * per block (any trigger combination): `C02_block_edge` (sound, complete, spaced),
   `C02_block_level` (sound; complete up to one record before/after a found trigger; separated),
@@ -33,6 +34,7 @@ import DastardV.Lemmas.LevelGlobal
 import DastardV.Lemmas.AutoGlobal
 import DastardV.Lemmas.PipeProj
 import DastardV.Lemmas.Reconf
+import DastardV.Lemmas.SoundGlobal
 namespace DastardV.C02
 open Trig
 
@@ -239,6 +241,37 @@ theorem C02_auto_gap_after_reconfigure {c c' : Chan} {ts : TS} {npre nsamp f0 : 
 /-- the effective delay is the configured one, or one record if that is longer -/
 theorem autoD_def (ts : TS) (nsamp : Int) : autoD ts nsamp = if ts.autoDelay < nsamp then nsamp else ts.autoDelay := rfl
 
+/-! ### Soundness for every trigger combination -/
+
+/-- **No pulse invented, any trigger combination, across blocks**: every primary trigger emitted in a
+run from a start sits on a sample of the delivered stream that satisfies an ENABLED criterion (edge or
+level, evaluated on the stream itself), unless the auto trigger is enabled (an auto trigger has no
+sample criterion). -/
+theorem C02_sound {c c' : Chan} {ts : TS} {npre nsamp f0 : Int} {tp : Nat → Int × Int} {n : Nat} {sg : Bool} {zt : ZT}
+    (hv : 3 ≤ npre ∧ npre < nsamp) (hem : ts.edgeMulti = false)
+    (hfresh : Fresh c ts npre nsamp f0) (segs : List (List Nat)) {tr : List Int}
+    (hrun : runChan zt tp sg n c f0 segs = some (c', tr)) :
+    ∀ T ∈ tr, SoundAt ts sg segs.flatten f0 T := by
+  obtain ⟨hbuf, hts, hnpre, hnsamp, hsync, _⟩ := hfresh
+  have h0 : SoundInv ts npre nsamp sg [] f0 c [] 0 :=
+    ⟨by simp, by simp [hbuf], ⟨hts, hnpre, hnsamp, hsync, Or.inr hbuf⟩, by simp, by simp⟩
+  obtain ⟨k', hinv⟩ := runChan_sound_inv hv hem segs n [] c [] 0 c' tr h0 (by simpa using hrun)
+  rw [List.nil_append, List.nil_append] at hinv
+  exact hinv.sound
+
+/-- with the auto trigger off this is: every trigger satisfies the edge or the level criterion -/
+theorem C02_sound_no_auto {c c' : Chan} {ts : TS} {npre nsamp f0 : Int} {tp : Nat → Int × Int} {n : Nat} {sg : Bool}
+    {zt : ZT} (hv : 3 ≤ npre ∧ npre < nsamp) (hem : ts.edgeMulti = false) (ha : ts.auto = false)
+    (hfresh : Fresh c ts npre nsamp f0) (segs : List (List Nat)) {tr : List Int}
+    (hrun : runChan zt tp sg n c f0 segs = some (c', tr)) :
+    ∀ T ∈ tr, (ts.edge = true ∧ edgeAtG (cfgChan ts sg) segs.flatten (T - f0) = true) ∨
+      (ts.level = true ∧ levelAtG (cfgChan ts sg) segs.flatten (T - f0) = true) := by
+  intro T hT
+  rcases C02_sound hv hem hfresh segs hrun T hT with h | h | h
+  · exact Or.inl h
+  · exact Or.inr h
+  · rw [ha] at h; cases h
+
 /-! ### After a reconfiguration: the retained samples are searched again
 
 `ConfigureTriggers` keeps the buffer and forgets the hold-off reference, so the next block is searched
@@ -268,7 +301,8 @@ theorem C02_after_reconfigure_full {c c' : Chan} {ts : TS} {npre nsamp fB : Int}
       edgeAtG (cfgChan ts sg) S p = true → Cov nsamp fB tr p) ∧
     (ts.level = true → ∀ p : Int, npre ≤ p → p + (nsamp - npre) < (S.length : Int) →
       levelAtG (cfgChan ts sg) S p = true → Near nsamp fB tr p) ∧
-    (ts.auto = true → ts.autoVeto = 0 → ∀ a b, [a, b] <:+: tr → a ≤ b ∧ b - a ≤ autoD ts nsamp + nsamp) := by
+    (ts.auto = true → ts.autoVeto = 0 → ∀ a b, [a, b] <:+: tr → a ≤ b ∧ b - a ≤ autoD ts nsamp + nsamp) ∧
+    (∀ T ∈ tr, SoundAt ts sg S fB T) := by
   obtain ⟨tp', hpre⟩ := runChan_prepend zt tp sg n c (fB + c.buf.length) seg segs
   rw [hpre, show fB + (c.buf.length : Int) - c.buf.length = fB by omega] at hrun
   have hfresh := fresh_of_reconfigured (fB := fB) hts hnpre hnsamp hsync hlast
@@ -277,7 +311,8 @@ theorem C02_after_reconfigure_full {c c' : Chan} {ts : TS} {npre nsamp fB : Int}
   rw [hS]
   refine ⟨fun hedge => C02_edge_complete hv hem hedge hfresh _ hrun,
     fun hlevel => C02_level_complete hv hem hlevel hfresh _ hrun,
-    fun hauto hveto => C02_auto_gap hv hem hauto hveto hfresh _ hrun⟩
+    fun hauto hveto => C02_auto_gap hv hem hauto hveto hfresh _ hrun,
+    C02_sound hv hem hfresh _ hrun⟩
 
 /-! ### The same at the level of the whole source
 
@@ -306,9 +341,10 @@ theorem C02_source_level {zts : List (List (Int × Int))} {j : Nat} {sg : Bool} 
       (ts.auto = true → ts.autoVeto = 0 → ∀ a b, [a, b] <:+: prims → a ≤ b ∧ b - a ≤ autoD ts nsamp + nsamp) ∧
       (ts.edge = true → ts.level = false → ts.auto = false →
         (∀ T ∈ prims, edgeAtG (cfgChan ts sg) segs.flatten (T - f0) = true) ∧
-        prims.Pairwise (fun a b => a + nsamp ≤ b)) := by
+        prims.Pairwise (fun a b => a + nsamp ≤ b)) ∧
+      (∀ T ∈ prims, SoundAt ts sg segs.flatten f0 T) := by
   obtain ⟨c', parts, hof, hrc⟩ := runOps_chan_frames zts j sg tp ops n f0 segs s c outs hb hc hrun
-  refine ⟨parts, hof, ?_, ?_, ?_, ?_⟩
+  refine ⟨parts, hof, ?_, ?_, ?_, ?_, C02_sound hv hem hfresh segs hrc⟩
   · intro hedge
     exact C02_edge_complete hv hem hedge hfresh segs hrc
   · intro hlevel
